@@ -39,7 +39,7 @@ ASSUMPTIONS = [
 ]
 BUDGET = {"quick": 40, "thorough": 420}
 NCASES = {"quick": 2500, "thorough": 60000}
-FLOORS = {"quick": {"case_held": 900, "nontrivial_held": 500}, "thorough": {"case_held": 9000, "nontrivial_held": 5000}}
+FLOORS = {'quick': {'case_held': 900, 'nontrivial_held': 500}, 'thorough': {'case_held': 9000, 'nontrivial_held': 5000, 'suite:apply_geometry_lowering:held': 20}}
 
 CELLQ = ["SpatialCoordinate", "CellCoordinate", "Jacobian", "JacobianInverse", "JacobianDeterminant", "CellVolume", "Circumradius",
          "CellDiameter", "MinCellEdgeLength", "MaxCellEdgeLength", "CellOrigin", "CellVertices", "CellEdgeVectors", "CellNormal",
@@ -105,3 +105,15 @@ def case(ctx, i, rng):
             pass
     elif verdict == "rejected":
         ctx.covered("rejected_quantities", name)
+
+
+# ---- additional workload (thorough tier): the repository's own test-suite with this property's passes monitored
+EXTRA_JOBS = {"thorough": ["suite"]}
+SUITE_TARGETS = ['apply_geometry_lowering']
+
+
+def extra_suite(ctx):
+    """Every call the repository's tests make to the monitored passes is judged by the same value oracle (vf/suitemon.py)."""
+    from ..suite_driver import run_suite
+
+    run_suite(ctx, SUITE_TARGETS, "C07")
